@@ -38,13 +38,13 @@ func c13(tier string) int {
 
 func c14(tier string) int {
 	plans := []seq.Plan{
-		{Family: "disk", Params: "keys=1,slots=2", From: 1, To: 6},
+		{Family: "disk", Params: "keys=1,slots=2,gc=1", From: 1, To: 6},
 		{Family: "disk", Params: "keys=2,slots=2,levels=RC.RR", From: 1, To: 4},
 		{Family: "disk", Params: "keys=1,slots=2,levels=RC.RR,close=1", From: 1, To: 4},
 	}
 	if tier == "thorough" {
 		plans = []seq.Plan{
-			{Family: "disk", Params: "keys=1,slots=2", From: 1, To: 7},
+			{Family: "disk", Params: "keys=1,slots=2,gc=1", From: 1, To: 7},
 			{Family: "disk", Params: "keys=2,slots=2,levels=RC.RR", From: 1, To: 6},
 			{Family: "disk", Params: "keys=1,slots=2,close=1", From: 1, To: 6},
 			{Family: "disk", Params: "keys=2,slots=3,levels=RC.RR,close=1", From: 1, To: 5},
@@ -55,18 +55,20 @@ func c14(tier string) int {
 		bulk = []enum.Plan{{Family: "bulk", Params: "maxn=64"}}
 	}
 	return seqEnumCheck("C14", tier, 240*time.Second, 15*time.Minute, plans, bulk,
-		"all fault-free histories up to the stated depth of autocommit and transactional writes, deletes, commits, failed commits and rollbacks; epilogue: roll back what is open, exact quiescence, one GC pass, quiescence, then the roots must hold exactly one content file per readable key with that key's bytes, all directly inside <root>/<uuid>/; variant close=1: Close immediately after the history (work pending), new process, reopen, same epilogue; plus the size dimension (family bulk): one transaction or the autocommit caller issuing n = 1..24 (thorough 64) writes in six shapes (n overwrites of one key committed / rolled back / autocommitted, n keys committed and reopened, n keys in a refused snapshot commit, n keys deleted), same epilogue with and without a restart",
+		"all fault-free histories up to the stated depth of autocommit and transactional writes, deletes, commits, failed commits, rollbacks and (one-key plan) collection passes at any position; epilogue: roll back what is open, exact quiescence, one GC pass, quiescence, then the roots must hold exactly one content file per readable key with that key's bytes, all directly inside <root>/<uuid>/; variant close=1: Close immediately after the history (work pending), new process, reopen, same epilogue; plus the size dimension (family bulk): one transaction or the autocommit caller issuing n = 1..24 (thorough 64) writes in six shapes (n overwrites of one key committed / rolled back / autocommitted, n keys committed and reopened, n keys in a refused snapshot commit, n keys deleted), same epilogue with and without a restart",
 		seqAssumptions)
 }
 
 func c09(tier string) int {
 	plans := []seq.Plan{
 		{Family: "gcdiff", Params: "keys=1,slots=2,levels=RR.RU.RC,maxgc=2", From: 1, To: 5},
+		{Family: "heldreader", Params: "keys=1,slots=2,levels=RR.RU.RC", From: 1, To: 4},
 	}
 	if tier == "thorough" {
 		plans = []seq.Plan{
 			{Family: "gcdiff", Params: "keys=1,slots=3,levels=RR.RU.RC,maxgc=9", From: 1, To: 6},
 			{Family: "gcdiff", Params: "keys=2,slots=2,levels=RR.RC,maxgc=2", From: 1, To: 5},
+			{Family: "heldreader", Params: "keys=1,slots=2,levels=RR.RU.RC", From: 1, To: 5},
 		}
 	}
 	ages := []enum.Plan{{Family: "ages", Params: "maxn=12"}}
@@ -74,7 +76,7 @@ func c09(tier string) int {
 		ages = []enum.Plan{{Family: "ages", Params: "maxn=40"}}
 	}
 	return seqEnumCheck("C09", tier, 240*time.Second, 15*time.Minute, plans, ages,
-		"every GC-free history up to the stated depth (snapshot, RC and RU transactions of different ages, several versions per key) re-run with the collector (virtual GC period elapsing, production path Sched->Send->worker->DeleteOld) inserted at every subset of positions of size <= maxgc, including before the first operation of a just-begun transaction and between its reads; every read of every actor after every step equals the model, for which GC is the identity, and delivers its bytes; plus the age dimension (family ages): n = 1..12 (thorough 40) transactions begun one after another with an overwrite after each, five level patterns, the collector after the last Begin and after every end, three end orders, Rollback or Commit, two background policies — every open transaction reads its own version after every step",
+		"every GC-free history up to the stated depth (snapshot, RC and RU transactions of different ages, several versions per key) re-run with the collector (virtual GC period elapsing, production path Sched->Send->worker->DeleteOld) inserted at every subset of positions of size <= maxgc, including before the first operation of a just-begun transaction and between its reads; every read of every actor after every step equals the model, for which GC is the identity, and delivers its bytes (every collection pass runs while each actor holds an open reader on every key it can read; the readers are drained after the pass); reads in progress (family heldreader): a reader opened at any position through the autocommit caller or an open transaction, one collection pass at or after it, drained at the end of the history — it must deliver the whole value it was opened on; plus the age dimension (family ages): n = 1..12 (thorough 40) transactions begun one after another with an overwrite after each, five level patterns, the collector after the last Begin and after every end, three end orders, Rollback or Commit, two background policies — every open transaction reads its own version after every step",
 		seqAssumptions)
 }
 
